@@ -1193,4 +1193,6 @@ pub fn run(ctx: &mut Ctx) {
         emit_run(ctx, an, &c, &tr);
     }
     huginn_net_tcp::uptime::VERIF_CLOCK_MS.store(u64::MAX, std::sync::atomic::Ordering::SeqCst);
+    // parallel mode (real worker pools behind the analyzers' own API), filtered, against sequential filtered
+    crate::registry::c10::run_pcap_filtered(ctx);
 }
